@@ -80,6 +80,14 @@ func (tm *typesMap) FieldStrings(fields []*types.Var) ([]string, error) {
 		return nil, err
 	}
 	strctLines := bytes.Split(strctStr, []byte{'\n'})
+	if len(strctLines) < 3 {
+		// gofmt keeps a struct type with at most one field on a single line: struct{ A int } or struct{}
+		body := bytes.TrimSpace(strctStr[bytes.IndexByte(strctStr, '{')+1 : bytes.LastIndexByte(strctStr, '}')])
+		if len(body) == 0 {
+			return []string{}, nil
+		}
+		return []string{string(body)}, nil
+	}
 	ss := make([]string, len(strctLines)-2)
 	for i := range strctLines[1 : len(strctLines)-1] {
 		ss[i] = string(bytes.TrimSpace(strctLines[i+1]))
